@@ -217,7 +217,13 @@ def handleLru (j : Json) : Option Json := do
   some (Json.mkObj [("hits", Json.arr (hits.reverse.map Json.bool).toArray), ("size", Json.num c.entries.length)])
 
 def parseCondK (s : String) : Option C16.Cond :=
-  match s with | "tt" => some .tt | "ff" => some .ff | "unk" => some .unk | _ => none
+  match s with
+  | "tt" => some .tt | "ff" => some .ff | "unk" => some (.unk 0 false)
+  | _ =>
+    -- "u<id>" / "n<id>": labelled unknown test, plain / negated
+    if s.startsWith "u" then (s.drop 1).toNat?.map (fun i => .unk i false)
+    else if s.startsWith "n" then (s.drop 1).toNat?.map (fun i => .unk i true)
+    else none
 def parseIterK (s : String) : Option C16.Iter :=
   match s with | "empty" => some .empty | "nonempty" => some .nonempty | "unk" => some .unk | _ => none
 
@@ -225,7 +231,7 @@ partial def parseStmt (j : Json) : Option C16.Stmt := do
   let a ← getArr? j
   let body (k : Nat) : Option (List C16.Stmt) := do (← getArr? a[k]!).toList.mapM parseStmt
   match (← getStr? a[0]!) with
-  | "simple" => some .simple | "ret" => some .ret | "raise" => some .raise | "brk" => some .brk | "cont" => some .cont
+  | "simple" => some (.simple (if a.size > 1 then (getNat? a[1]!).getD 0 else 0)) | "ret" => some .ret | "raise" => some .raise | "brk" => some .brk | "cont" => some .cont
   | "assert" => some (.assertC (← (getStr? a[1]!) >>= parseCondK))
   | "if" => some (.ite (← (getStr? a[1]!) >>= parseCondK) (← body 2) (← body 3))
   | "while" => some (.whileS (← (getStr? a[1]!) >>= parseCondK) (← body 2))
@@ -248,10 +254,32 @@ def handleExec (j : Json) : Option Json := do
   let bits ← (field? j "bits") >>= getArr?
   let bits ← bits.toList.mapM getBool?
   let fuel ← (field? j "fuel") >>= getNat?
-  let r := C16.execList (fun i => bits.getD i false) fuel ss ⟨0⟩
-  let r2 := C16.execList (fun i => bits.getD i false) fuel (C16.deleteUnreachable ss) ⟨0⟩
+  let r := C16.execList (fun i => bits.getD i false) fuel ss ⟨0, []⟩
+  let r2 := C16.execList (fun i => bits.getD i false) fuel (C16.deleteUnreachable ss) ⟨0, []⟩
+  let ev (e : C16.Ev) : Json := match e with | .stmt l => Json.arr #["s", Json.num l] | .test i => Json.arr #["t", Json.num i]
   some (Json.mkObj [("out", outName r.1), ("pos", Json.num r.2.pos), ("out_del", outName r2.1), ("pos_del", Json.num r2.2.pos),
+                    ("trace", Json.arr (r.2.trace.reverse.map ev).toArray), ("same_trace", Json.bool (r.2.trace == r2.2.trace)),
                     ("kept", Json.num (C16.deleteUnreachable ss).length)])
+
+partial def stmtJson : C16.Stmt → Json
+  | .simple l => Json.arr #["simple", Json.num l]
+  | .ret => Json.arr #["ret"] | .raise => Json.arr #["raise"] | .brk => Json.arr #["brk"] | .cont => Json.arr #["cont"]
+  | .assertC c => Json.arr #["assert", condK c]
+  | .ite c b o => Json.arr #["if", condK c, Json.arr (b.map stmtJson).toArray, Json.arr (o.map stmtJson).toArray]
+  | .whileS c b => Json.arr #["while", condK c, Json.arr (b.map stmtJson).toArray]
+  | .forS it b => Json.arr #["for", (match it with | .empty => "empty" | .nonempty => "nonempty" | .unk => "unk"), Json.arr (b.map stmtJson).toArray]
+  | .withS b => Json.arr #["with", Json.arr (b.map stmtJson).toArray]
+where condK : C16.Cond → Json
+  | .tt => "tt" | .ff => "ff" | .unk id neg => Json.str ((if neg then "n" else "u") ++ toString id)
+
+/-- the verified validator: equal normal forms; the trace of an execution is also returned for the search -/
+def handleValidate (j : Json) : Option Json := do
+  let a ← (field? j "a") >>= getArr?
+  let a ← a.toList.mapM parseStmt
+  let b ← (field? j "b") >>= getArr?
+  let b ← b.toList.mapM parseStmt
+  some (Json.mkObj [("ok", Json.bool (C16.validate a b)),
+                    ("na", Json.arr ((C16.normL a []).map stmtJson).toArray), ("nb", Json.arr ((C16.normL b []).map stmtJson).toArray)])
 
 partial def parseVal (j : Json) : Option C15.Val := do
   let a ← getArr? j
@@ -497,6 +525,7 @@ def dispatch (j : Json) : Json :=
   | some "lru" => (handleLru j).getD bad
   | some "blocking" => (handleBlocking j).getD bad
   | some "exec" => (handleExec j).getD bad
+  | some "validate" => (handleValidate j).getD bad
   | some "lit" => (handleLit j).getD bad
   | some "match" => (handleMatch j).getD bad
   | some "perms" => (handlePerms j).getD bad
